@@ -19,6 +19,7 @@ STEPPING = 'self._stepping'
 
 
 def run(chk: Check) -> None:
+    withdrawn_pause_stays_withdrawn(chk)
     pause_gate(chk)
     pause_ladder(chk)
     no_step_lost(chk)
@@ -178,6 +179,23 @@ def no_step_lost(chk: Check) -> None:
     rearm_after_interruption(chk, 'DOM-no-step-lost')
     fin = [t for t in ast.walk(dp.node) if isinstance(t, ast.Try) and any(isinstance(s, ast.Assign) and norm(s.targets[0]) == PAUSING and norm(s.value) == 'None' for s in t.finalbody)]
     chk.ob('PAIR-pausing-reset', dp, bool(fin), '_pausing is reset on every exit of _do_pause', kind='finally-reset')
+
+
+def withdrawn_pause_stays_withdrawn(chk: Check) -> None:
+    """play() calls a pending pause off by cancelling its action and clearing the interrupt action -- but when the step was blocked in WAITING the
+    PauseInterruption is already sitting in the waiting future.  The stepping task then wakes up with an interruption for which NO action is installed
+    any more; building a new action from the exception re-instates the pause that was called off."""
+    from ..facts import is_none
+    prog = chk.prog
+    step = prog.func('processes.Process.step')
+    ff = chk.ctx.facts.analyse(step)
+    sites = [c for c in calls_in_func(step, '_set_interrupt_action_from_exception')]
+    for c in sites:
+        for n_, fs in ff.site_facts(c):
+            if is_none(fs, 'self._interrupt_action'):
+                chk.ob('PAIR-play', step, False, 'step() builds a new interrupt action from an Interruption although no action is installed: a pause that play() called off while the step '
+                       'was blocked in WAITING is re-instated, the process ends up paused after play()', node=c, kind='withdrawn-pause-reinstated')
+    chk.ob('PAIR-play', step, True, f'{len(sites)} site(s) that build an interrupt action from a delivered interruption examined', kind='reinstate-scan')
 
 
 # ---------------------------------------------------------------------- 4. status pairing, play()
